@@ -15,6 +15,16 @@ CLAIMED = {
             "quantifier is covered exhaustively on the implementation side too.",
             "Trusted: TLC, the Json module, the harness's event projection. The spec's calendar is itself model-checked.",
             "TLA+ model checking (TLC) + trace validation of implementation events against the spec", "DESIGN.md §5 C01"),
+    "C02": ("model_checking",
+            "Every conversion the property names (instant -> civil at an offset and back, the four unit views and "
+            "constructors, Timestamp::new sign normalisation) is specified in Instant.tla on <<day, second-of-day, ns>> "
+            "triples with BigInt.tla limb arithmetic (model-checked against native arithmetic); every observed call of the "
+            "real code is recomputed by Trace_C02.tla. The quantifier is covered boundary-exhaustively: all day boundaries "
+            "+-1ns (thorough: all 7.3M days), every second of selected days, an epoch-neighbourhood grid crossing zero and "
+            "day boundaries under every extreme offset, both range ends, seeded pairs elsewhere.",
+            "Trusted: TLC, Json module, the harness's limb encoder. Not exhaustive over the 2.5e20 x 187199 product; "
+            "boundary classes are exhaustive, the interior is sampled.",
+            "TLA+ spec evaluated by TLC as a trace validator over implementation events; BigInt model-checked", "DESIGN.md §5 C02"),
 }
 
 PENDING_REASON = "check not built yet in this round (planned, see DESIGN.md §5); no claim is made"
